@@ -57,7 +57,15 @@ func (e *ATExecutor) ExecWithNamedValue(ctx context.Context, execCtx *types.Exec
 	} else {
 		switch queryParser.SQLType {
 		case types.SQLTypeInsert:
-			executor = NewInsertExecutor(queryParser, execCtx, e.hooks)
+			if stmt := queryParser.InsertStmt; stmt != nil && (stmt.IgnoreErr || stmt.IsReplace) {
+				// a row of the statement may meet an existing row: REPLACE replaces it, INSERT IGNORE leaves
+				// it alone. The images must tell the rows the statement inserted from the rows that were
+				// there before, as for INSERT ... ON DUPLICATE KEY UPDATE; the plain insert executor takes
+				// every row of the statement for inserted, and its undo deletes rows that existed before.
+				executor = NewInsertOnUpdateExecutor(queryParser, execCtx, e.hooks)
+			} else {
+				executor = NewInsertExecutor(queryParser, execCtx, e.hooks)
+			}
 		case types.SQLTypeUpdate:
 			executor = NewUpdateExecutor(queryParser, execCtx, e.hooks)
 		case types.SQLTypeDelete:
